@@ -508,19 +508,31 @@ fn eval_predicate(
     // A predicate is a function of the context node, position and size: the answer is kept for
     // the rest of the query, otherwise predicates nested in predicates (`//a[//a[//a[...]]]`) are
     // evaluated again for every candidate of every enclosing level. A node without an order key
-    // of its own (key 0, namespace nodes) is not told apart by its key and is evaluated anew.
-    let key = match node {
-        dom::XmlNode::Namespace(_) => None,
-        _ => match node.order() {
-            0 => None,
-            order => Some((
-                predicate as *const expr::Expr as usize,
-                order,
-                context.get_position(),
-                context.get_size(),
-            )),
-        },
+    // of its own is told apart by what a predicate can see of it: a namespace node (it carries
+    // the key of its declaration, has no parent) by its name and value, a node with key 0 (an
+    // attribute defaulted from the DTD) by its element, name and value.
+    let order = node.order();
+    let identity = match node {
+        dom::XmlNode::Namespace(_) => Some(format!(
+            "{}={}",
+            node.node_name(),
+            node.node_value().ok().flatten().unwrap_or_default()
+        )),
+        _ if order == 0 => Some(format!(
+            "{:?}/{}={}",
+            parent(&node).map(|v| v.order()),
+            node.node_name(),
+            node.node_value().ok().flatten().unwrap_or_default()
+        )),
+        _ => None,
     };
+    let key = Some((
+        predicate as *const expr::Expr as usize,
+        order,
+        identity,
+        context.get_position(),
+        context.get_size(),
+    ));
     if let Some(selected) = key.as_ref().and_then(|k| context.predicate(k)) {
         return Ok(selected);
     }
